@@ -21,6 +21,18 @@ pub enum ResponseOutputFormat {
     },
 }
 
+/// a cell of a CSV row: the JSON text of the value. an array or an object is written as one
+/// quoted cell (quotes doubled, by the rules of CSV), so that its commas do not add columns
+fn csv_cell(value: &serde_json::Value) -> String {
+    let text = value.to_string();
+    match value {
+        serde_json::Value::Array(_) | serde_json::Value::Object(_) => {
+            format!("\"{}\"", text.replace('"', "\"\""))
+        }
+        _ => text,
+    }
+}
+
 impl ResponseOutputFormat {
     pub fn initial_file_contents(&self) -> Option<String> {
         match self {
@@ -65,7 +77,7 @@ impl ResponseOutputFormat {
                         .iter()
                         .sorted_by_key(|(k, _)| *k)
                         .map(|(k, v)| match v.apply_mapping(response) {
-                            Ok(cell) => cell.to_string(),
+                            Ok(cell) => csv_cell(&cell),
                             Err(msg) => {
                                 errors.insert(k.clone(), msg);
                                 String::from("")
@@ -77,7 +89,7 @@ impl ResponseOutputFormat {
                         .iter()
                         .rev()
                         .map(|(k, v)| match v.apply_mapping(response) {
-                            Ok(cell) => cell.to_string(),
+                            Ok(cell) => csv_cell(&cell),
                             Err(msg) => {
                                 errors.insert(k.clone(), msg);
                                 String::from("")
